@@ -12,7 +12,7 @@ INFO = {
  "C05": dict(level="bounded: one operation from any valid registry state (<=2 signals, <=3 actions, arbitrary u128 ids) and a fixed 11-step history with symbolic ids, compared with a per-signal ordered-list model",
              note="std HashMap/BTreeMap replaced by fixed-capacity stand-ins with map semantics; Arc replaced by a counting stand-in; kernel = model (sigaction EINVAL outside 1..64, 32, 33, KILL/STOP)",
              technique=SEQ + KM),
- "C06": dict(level="one sequential step from every well-formed channel state is a 5-bounded FIFO push/pop (inductive step), so every sequential history is covered given the representation invariant",
+ "C06": dict(level="one sequential step from every well-formed channel state is a 5-bounded FIFO push/pop (inductive step), so every sequential history is covered given the representation invariant; nested clause: a complete send nested at any shim point of a send (tag accounting)",
              note="representation invariant assumed for the symbolic pre-state (queue words well-formed, indices partition 1..5 with <=2 in flight); payload u8",
              technique=SEQ),
  "C07": dict(level="bounded: interleavings within K=3 rounds of producers/consumers on the real channel.rs with vector clocks derived from the declared Acquire/Release/Relaxed orderings; destructor counting",
@@ -34,14 +34,14 @@ INFO = {
 
 NEST = "SAT-based bounded model checking (Kani/CBMC) of the real code with complete operations nested nondeterministically at the shim points of the interrupted code (signal-handler semantics)"
 INFO.update({
- "C02": dict(level="bounded: one delivery runs exactly its signal's actions once each in id order with one read section per snapshot; mutators publish exactly one snapshot iff they changed something; unregister of any (signal,u128 id); overlap clause by composition with C01's half-lock result",
-             note="maps/Arc/Once stand-ins; the 'old or new list' clause under overlap is argued from the half-lock being a linearisable register (C01 harness), not solved over the whole registry",
+ "C02": dict(level="bounded: one delivery runs exactly its signal's actions once each in id order with one read section per snapshot; mutators publish exactly one snapshot iff they changed something; unregister of any (signal,u128 id); <=2 complete deliveries nested at every shim point of register()/unregister() run the old or the new list, never a mixture",
+             note="maps/Arc/Once stand-ins; deliveries overlapping a mutation are nested on the mutating thread (signal-handler semantics); for deliveries on other threads the clause composes with the half-lock result of C01",
              technique=SEQ + KM),
  "C03": dict(level="bounded: deliveries through the real dispatcher into flag, self-pipe wake, conditional shutdown and the iterator's exfiltrating action, pipe at any fill level: no lock, no spin/yield, no allocator call, no release of a last reference, <=12 shim steps, no write that may block; thorough: against a mutator on another thread (Lal-Reps)",
              note="allocator entry points alloc::alloc::alloc / dealloc_nonnull stubbed (positive control harness); user-supplied actions and libc internals are outside",
              technique=SEQ + KM + "; allocator stubs"),
- "C04": dict(level="bounded: for each previous disposition (default, ignore, 1-arg, 3-arg SA_SIGINFO) deliveries before the take-over, after it and after another signal's first registration chain exactly once, first, with the right convention and the kernel's arguments",
-             note="integer->fn-pointer transmutes hand out logging trampolines; arrival *inside* the first registration is outside (see DESIGN 9)",
+ "C04": dict(level="bounded: for each previous disposition (default, ignore, 1-arg, 3-arg SA_SIGINFO) deliveries before the take-over, at every shim point / system call inside the first registration (the race-fallback window), after it, and inside / after another signal's first registration chain exactly once, first, with the right convention and the kernel's arguments",
+             note="integer->fn-pointer transmutes hand out logging trampolines; arrival on another thread during the first registration: thorough tier (Lal-Reps K=3)",
              technique=SEQ + KM),
  "C08": dict(level="bounded: send/recv from any well-formed channel state with a complete send or recv nested at any shim point and one spurious weak-CAS failure: no reachable panic, no waiting, own steps bounded, tags conserved",
              note="representation invariant assumed for the pre-state; <=1 index in flight; 1 nested operation",
@@ -49,13 +49,13 @@ INFO.update({
  "C09": dict(level="bounded: a complete delivery nested anywhere in a consumer iteration, and a complete consumer iteration of another thread nested anywhere in the delivering action: the consumer never sleeps on the empty self-pipe with a delivered signal unreported",
              note="consumer = SignalDelivery::poll_pending + pending() composed as SignalsInfo::wait does; 4-entry slot table; descriptor model",
              technique=NEST + KM),
- "C10": dict(level="bounded: histories of deliveries (watched / unwatched signal) and pending() batches: yields <= deliveries, nothing unwatched, nothing twice; also under nested deliveries",
-             note="SignalOnly exfiltrator end to end; info-carrying exfiltrators only through the channel properties",
+ "C10": dict(level="bounded: histories of deliveries (watched / unwatched signal) and pending() batches: yields <= deliveries, nothing unwatched, nothing twice, also under nested deliveries; WithRawSiginfo end to end: 7 deliveries with symbolic payloads, every record a faithful copy of one delivery, in delivery order, at most one per delivery, buffer overflow, a delivery nested in the first load of a batch",
+             note="SignalOnly and WithRawSiginfo end to end on the backend object; WithOrigin is a pure function of the raw record (C17); batch points concrete",
              technique=SEQ + KM),
- "C11": dict(level="bounded: close() nested at any check of the closed flag / system call of a poll_signal or a blocking wait: Pending only after the callback was consulted and said no; sticky; later calls do not block",
+ "C11": dict(level="bounded: close() nested at any check of the closed flag / system call of a poll_signal or a blocking wait: Pending only after the callback was consulted and said no; sticky; later calls do not block; a consumer of another thread nested inside close() is never left asleep without a wake-up written after it fell asleep",
              note="tokio/async-std adapters map PollResult one-to-one and are not encoded",
              technique=NEST + KM),
- "C12": dict(level="bounded: add_signal with numbers that must be refused (panic: never returns, nothing changed; Err: nothing changed, retry identical), from a poisoned-lock state, re-add, drop and failing constructor (thorough)",
+ "C12": dict(level="bounded: add_signal with numbers that must be refused (panic: never returns, nothing changed; Err: nothing changed, retry identical), from a poisoned-lock state, re-add, failing constructor; drop with a poisoned lock unregisters and closes the pipe exactly once (thorough)",
              note="Kani has no unwinding: 'survives a caught panic' is decided as 'works from the state the panic leaves behind (lock poisoned, nothing else changed)'",
              technique=SEQ + KM + "; lock/poison queries"),
  "C14": dict(level="bounded: per checked entry point, all 5 forbidden signals never return and change nothing first; every c_int the kernel rejects gives Err with registry, dispositions and captures untouched/released; unchecked entry points pass the kernel verdict through",
